@@ -235,8 +235,13 @@ impl Config {
     /// Updates the saved ignore_class_notfound_regexp pattern list with the provided list and
     /// ensures that the precompiled RegexSet is updated to match the new pattern list.
     pub fn set_ignore_class_notfound_regexp(&mut self, patterns: Vec<String>) -> Result<()> {
+        // Compile first, so that a pattern list which doesn't compile leaves both the reported
+        // pattern list and the precompiled RegexSet untouched.
+        let regexset = RegexSet::new(&patterns)
+            .map_err(|e| anyhow!("while compiling ignore_class_notfound regex patterns: {e}"))?;
         self.ignore_class_notfound_regexp = patterns;
-        self.compile_ignore_class_notfound_patterns()
+        self.ignore_class_notfound_regexset = regexset;
+        Ok(())
     }
 
     pub(crate) fn is_class_ignored(&self, cls: &str) -> bool {
